@@ -135,7 +135,7 @@ def replay_relax(model, cls="SinglePhaseReservoir", nx=3):
 
 # ------------------------------------------------------------------ symbolic runs
 
-def _sim(mod, cls, nx, nt, schedule, policy, const_drawdown=True, tdtype="f8", repeat_first=False, tseries=False):
+def _sim(mod, cls, nx, nt, schedule, policy, const_drawdown=True, tdtype="f8", repeat_first=False, tseries=False, repeat_at=None):
     """Run the real simulate once; returns (reservoir, fluid, time array, m_f list)."""
     SS.LinSolve.reset(policy)
     SS.reset_names()
@@ -143,6 +143,10 @@ def _sim(mod, cls, nx, nt, schedule, policy, const_drawdown=True, tdtype="f8", r
     if repeat_first:
         # a non-decreasing grid with a repeated time: t0, t0, t0 + d, ...
         t = SymArray([t.d[0]] + list(t.d[:-1]), "f8")
+    if repeat_at is not None:
+        # ... or with a later time repeated: t0, t1, t1, t2
+        t = SymArray(list(t.d[:repeat_at + 1]) + list(t.d[repeat_at:]), "f8")
+        nt = nt + 1
     if tdtype != "f8":
         t = SymArray(list(t.d), tdtype)
     if tseries:
@@ -433,26 +437,36 @@ def replay_repeat(model, cls="SinglePhaseReservoir", nx=3):
         except Exception as ex:  # noqa: BLE001
             return True, {"what": f"{cls}.simulate raised {ex!r} on the non-decreasing grid {t.tolist()}", "inputs": {}}
     pp = np.asarray(res.pseudopressure, float)
-    bad = bool(not np.all(np.isfinite(pp)) or pp.min() < lo - 1e-9 * hi or pp.max() > hi * (1 + 1e-9) or np.any(np.abs(pp[1] - pp[0]) > 1e-12 * hi))
-    return bad, {"what": f"{cls} on the grid {t.tolist()} with a repeated time: field in [{pp.min()!r}, {pp.max()!r}] (bounds [{lo!r}, {hi!r}]), "
-                         f"level 1 - level 0 up to {np.abs(pp[1] - pp[0]).max()!r}", "inputs": {}}
+    bad = bool(not np.all(np.isfinite(pp)) or pp.min() < lo - 1e-9 * hi or pp.max() > hi * (1 + 1e-9) or np.any(np.abs(pp[1] - pp[0]) > 1e-12 * hi)
+               or np.any(np.abs(pp[3][1:] - pp[2][1:]) > 1e-12 * hi))
+    return bad, {"what": f"{cls} on the grid {t.tolist()} with repeated times: field in [{pp.min()!r}, {pp.max()!r}] (bounds [{lo!r}, {hi!r}]), "
+                         f"level 1 - level 0 up to {np.abs(pp[1] - pp[0]).max()!r}, level 3 - level 2 beyond the frac-face node up to {np.abs(pp[3][1:] - pp[2][1:]).max()!r} "
+                         f"(level 2 {pp[2].tolist()}, level 3 {pp[3].tolist()})", "inputs": {}}
 
 
-def job_bounds_repeat(job, cls, nx):
+def job_bounds_repeat(job, cls, nx, later=False):
     """'Every non-decreasing time grid' includes repeated times: a zero-length step stores the previous level again
-    (frac-face node at the frac-face value) and the next step obeys the bounds."""
+    (frac-face node at the frac-face value) and the next step obeys the bounds.  later=True: the repeated time is not the
+    first one (t0, t1, t1), so the previous level is no longer the initial state."""
     job.solve_defaults = {"abstract": True}
     mod = load_reservoir()
     job.encoded(mod, f"{cls}.simulate")
-    tag = f"{cls}[nx={nx},grid t0,t0,t0+d]"
+    tag = f"{cls}[nx={nx},grid t0,t0,t0+d]" if not later else f"{cls}[nx={nx},grid t0,t1,t1]"
     rp = (replay_repeat, {"cls": cls, "nx": nx})
-    for k, pr in enumerate(paths(job, lambda: _sim(mod, cls, nx, 3, False, policy_exact(), repeat_first=True), [], max_paths=16, catch=(Exception,))):
+    run = (lambda: _sim(mod, cls, nx, 2, False, policy_exact(), repeat_at=1)) if later else (lambda: _sim(mod, cls, nx, 3, False, policy_exact(), repeat_first=True))
+    for k, pr in enumerate(paths(job, run, [], max_paths=16, catch=(Exception,))):
         if pr.exc is not None:
             job.prove(f"{tag}/raises {type(pr.exc).__name__}[path{k}]", pr.pc, bound=f"nx={nx}", replay=rp, note=repr(pr.exc)[:100])
             continue
         r, fluid, t, mf = pr.value
         rows = rows_of(r)
         lo, hi = _lo_hi(fluid, mf, 2)
+        if later:
+            # beyond the frac-face node (which the documented boundary row resets to the frac-face value) level 2 is level 1
+            same = T.b_or(*[T.b_not(T.b_eq0(T.p_sub(P(a), P(b)))) for a, b in zip(rows[2][1:], rows[1][1:])])
+            job.prove(f"{tag}/zero-length step stores the previous level beyond the frac-face node[path{k}]", pr.pc + [same], bound=f"nx={nx}", replay=rp, elim=True, abstract=False)
+            job.prove(f"{tag}/reach[path{k}]", pr.pc, expect="sat", elim=True, abstract=False)
+            continue
         same = T.b_or(*[T.b_not(T.b_eq0(T.p_sub(P(a), P(b)))) for a, b in zip(rows[1], rows[0])])
         job.prove(f"{tag}/zero-length step stores the previous level[path{k}]", pr.pc + [same], bound=f"nx={nx}", replay=rp, elim=True, abstract=False)
         job.prove(f"{tag}/next level within the bounds[path{k}]", pr.pc + [_outside(rows[2], lo, hi)], bound=f"nx={nx}, any d>0", replay=rp)
@@ -692,6 +706,7 @@ def jobs(tier):
         out.append((f"bounds-series-time-{cls[:6]}-3", lambda j, c=cls: job_bounds_series(j, c, 3)))
     for cls in ("SinglePhaseReservoir", "IdealReservoir"):
         out.append((f"repeat-{cls[:6]}-3", lambda j, c=cls: job_bounds_repeat(j, c, 3)))
+        out.append((f"repeat-later-{cls[:6]}-3", lambda j, c=cls: job_bounds_repeat(j, c, 3, True)))
     for cls in ("SinglePhaseReservoir", "IdealReservoir"):
         out.append((f"after-recovery-{cls[:6]}-4", lambda j, c=cls: job_after_recovery(j, c, 4)))
     out.append(("reuse-field-3", lambda j: job_reuse(j, 3, "field")))
